@@ -124,7 +124,7 @@ fn classify(o: &mut CaseOut, who: &str, obs: &[Item], m: &Model, src: &[usize], 
     }
 }
 
-fn check_dfs<D: Order + OutNeighbors>(d: &D, m: &Model, src: &[usize], o: &mut CaseOut) {
+fn check_dfs<D: Order + OutNeighbors + Clone>(d: &D, m: &Model, src: &[usize], o: &mut CaseOut) {
     let n = m.n();
     let cap = 4 * n + 4;
     let (full, cut) = intended(m, src);
@@ -134,6 +134,17 @@ fn check_dfs<D: Order + OutNeighbors>(d: &D, m: &Model, src: &[usize], o: &mut C
     classify(o, "DfsDist", &b, m, src, false, true, &full, cut);
     let c: Vec<Item> = DfsPred::new(d, src.iter().copied()).take(cap).map(|(p, v)| (p, v, 0)).collect();
     classify(o, "DfsPred", &c, m, src, true, false, &full, cut);
+    // a clone of a fresh iterator is the same iterator
+    let a2: Vec<usize> = Dfs::new(d, src.iter().copied()).clone().take(cap).collect();
+    let b2: Vec<(usize, usize)> = DfsDist::new(d, src.iter().copied()).clone().take(cap).collect();
+    let c2: Vec<(Option<usize>, usize)> = DfsPred::new(d, src.iter().copied()).clone().take(cap).collect();
+    o.check(
+        a2 == a.iter().map(|x| x.1).collect::<Vec<_>>()
+            && b2 == b.iter().map(|x| (x.1, x.2)).collect::<Vec<_>>()
+            && c2 == c.iter().map(|x| (x.0, x.1)).collect::<Vec<_>>(),
+        "clone-of-a-fresh-Dfs-iterator-differs",
+        || format!("Dfs {a2:?} DfsDist {b2:?} DfsPred {c2:?}"),
+    );
     // the three iterators must agree item by item
     let va: Vec<usize> = a.iter().map(|x| x.1).collect();
     let vb: Vec<usize> = b.iter().map(|x| x.1).collect();
